@@ -5,3 +5,6 @@ package collector
 
 // VerifMutexFree reports whether cp.mutex is held by nobody (scheduler invariant hooks).
 func (cp *CollectingProcess) VerifMutexFree() bool { return cp.mutex.Free() }
+
+// VerifWGCount returns the modelled WaitGroup counter (shim flavour only).
+func (cp *CollectingProcess) VerifWGCount() int { return cp.wg.Count() }
